@@ -56,3 +56,20 @@ package device
 //vc:  ensures[C12] lockHeld == (result1 == nil) && lockFileRef == result0
 //vc:  ensures[C12] @lockedOnSuccess result1 == nil ==> result0 != nil && flocked(result0)
 //vc:  ensures[C12] @lockFileIsPerDeviceBasename lockFile == pathJoin(lockDir, path.Base(fname)) && lockDir == pathJoin(cfg.BaseDir, "lock")
+
+// ---- C13: the result of a compare reaches the run log ----
+// do-approve learns whether a compare found differences only from the line
+// "comp: *** device changed ***" in the run log. compare therefore announces
+// its result on every normal return, and the line that is printed follows
+// HasChanges.
+//vc:ghost var compareInfoShown bool
+//vc:ghost var lastHasChanges bool
+//vc:func (*state).showCompareInfo
+//vc:  assign after "s.HasChanges()" lastHasChanges = callresult
+//vc:  assign after "s.HasChanges()" compareInfoShown = true
+//vc:  assert[C13] at "errlog.Info("#1 @unchangedOnlyWithoutChanges !lastHasChanges
+//vc:  assert[C13] at "errlog.Info("#2 @changedAnnouncedWithChanges lastHasChanges
+//vc:  ensures[C13] compareInfoShown
+//vc:func (*state).compare
+//vc:  init compareInfoShown = false
+//vc:  ensures[C13] @compareResultAnnounced result == nil ==> compareInfoShown
